@@ -61,3 +61,8 @@ let () =
       of_result (fun l -> VL (List.map (fun z -> VI z) l)) (Model.c09_path_tree (vb s)) | _ -> raise (Bad "arity"));
   register "c09_sec1_point" (function [p; a; b; pk] ->
       of_result (fun (x, y) -> VT [VI x; VI y]) (Model.c09_sec1_point (vi p) (vi a) (vi b) (vb pk)) | _ -> raise (Bad "arity"))
+;
+  register "c09_cli_hd" (function [p; a; b; n; g; m; path; x; xp; dump; pr] ->
+      of_result (fun (out, d) -> VT [VB out; (match d with None -> VNone | Some f -> of_fields f)])
+        (Model.c09_cli_hd (vi p) (vi a) (vi b) (vi n) (vpoint g) (hm m) sha256 ripemd160 (vb path) (vb x)
+           (vbool xp) (vbool dump) (vbool pr)) | _ -> raise (Bad "arity"))
